@@ -116,7 +116,10 @@ OPTION_SETS = [None, {}, {"chunksize": 0}, {"chunksize": -2}, {"tilesize": 0},
                {"region_name": ("a", "b")}, {"depth": 99},
                {"omp_schedule": "nonsense"}, {"reprod": True},
                {"nowait": True}, {"independent": False, "sequential": True},
-               {"unknown_option": 1}]
+               {"unknown_option": 1}, {"verbose": True},
+               {"collapse": 2, "reprod": True}, {"collapse": 7, "reprod": True},
+               {"collapse": 1}, {"tilesize": 3}, {"chunksize": 3},
+               {"force": True, "collapse": 3}]
 
 
 def raise_site(err):
@@ -127,16 +130,44 @@ def raise_site(err):
     return "?"
 
 
+def preferred_target(cname):
+    c = cname.lower()
+    if "2code" in c or "2loop" in c and "array" not in c:
+        return ("IntrinsicCall",)
+    if "inline" in c or "kernel" in c:
+        return ("Call", "Kern", "CodedKern")
+    if "arrayassignment" in c or "hoisttrans" == c or "reference2" in c \
+            or "arrayaccess" in c:
+        return ("Assignment", "Reference")
+    if any(x in c for x in ("loop", "omp", "acc", "chunk", "tiling",
+                            "colour", "redundant", "induction")):
+        return ("Loop",)
+    return None
+
+
 def attempt_all(root_factory, classes, part, rnd, budget, textual, tag):
     """root_factory() -> fresh tree.  Tries budget random (class, node,
     options) attempts, each on a fresh tree."""
     from psyclone.psyir.transformations import TransformationError
     sites = set()
     probe = root_factory()
-    nnodes = len(probe.walk(object))
+    probe_nodes = probe.walk(object)
+    nnodes = len(probe_nodes)
     for _ in range(budget):
         cls = rnd.choice(classes)
         k = rnd.randrange(nnodes)
+        # type-aware targets: most transformations want a Loop, an
+        # Assignment, a Call or an IntrinsicCall; give them one of those
+        # (where the workload has one) 60% of the time so that refusals
+        # deeper than the first type check are reached
+        if rnd.random() < 0.6:
+            want = preferred_target(cls.__name__)
+            if want:
+                idx = [i for i, n in enumerate(probe_nodes)
+                       if type(n).__name__ in want or
+                       any(b.__name__ in want for b in type(n).__mro__)]
+                if idx:
+                    k = rnd.choice(idx)
         opts = rnd.choice(OPTION_SETS)
         as_list = rnd.random() < 0.25
         tree = root_factory()
@@ -235,6 +266,76 @@ def diff_shape(fp0, fp1, tag):
     return "refusal.lazy_lfric_materialisation"
 
 
+def systematic(text, part, sites):
+    """Every natural (transformation, target, option) attempt of the C05 /
+    C06 / C07 engines on this kernel, each on a fresh tree, monitored the
+    same way.  This reaches refusals that happen deep inside composite
+    transformations (e.g. tiling = chunk + chunk + swap)."""
+    from psyclone.psyir.transformations import TransformationError
+    from vf.checks import c05, c06, c07
+    from vf import xform
+    tree0 = psy.read(text)
+    atts = c05.attempts(tree0) + c06.attempts(tree0) + c07.attempts(tree0)
+    # extra option variants for the composite ones
+    from psyclone.psyir.nodes import Loop
+    from psyclone.psyir import transformations as T
+    for k, lp in enumerate(tree0.walk(Loop)):
+        for ts in (1, 4, 5, 32):
+            atts.append(xform.Attempt(
+                "LoopTiling2DTrans", "loop%d" % k, {"tilesize": ts},
+                lambda t, k=k, ts=ts: T.LoopTiling2DTrans().apply(
+                    t.walk(Loop)[k], {"tilesize": ts})))
+    for a in atts:
+        tree = psy.read(text)
+        again = [b for b in (c05.attempts(tree) + c06.attempts(tree) +
+                             c07.attempts(tree))
+                 if (b.tname, b.target_desc, repr(b.options)) ==
+                 (a.tname, a.target_desc, repr(a.options))]
+        fn = again[0].apply_fn if again else a.apply_fn
+        fp0 = fingerprint(tree)
+        try:
+            txt0 = psy.write(tree)
+        except Exception:
+            txt0 = None
+        try:
+            fn(tree)
+            part.count("accepted")
+            continue
+        except TransformationError as err:
+            part.count("refused")
+            part.count("refused:" + a.tname)
+            site = raise_site(err)
+            sites.add(site)
+        except Exception as err:
+            part.count("other_exception:" + type(err).__name__)
+            continue
+        fp1 = fingerprint(tree)
+        desc = "%s on %s options %r" % (a.tname, a.target_desc, a.options)
+        if fp1 != fp0:
+            part.violation({
+                "kind": "tree_changed_by_refused_transformation",
+                "mechanism": None,
+                "what": "%s refused at %s but the PSyIR changed: %s" % (
+                    desc, site, fp_diff(fp0, fp1)),
+                "workload": "generic-systematic", "source": text,
+                "transformation": a.tname,
+                "dedupe": (a.tname, fp_diff(fp0, fp1)[:50])})
+        elif txt0 is not None:
+            try:
+                txt1 = psy.write(tree)
+            except Exception as err:
+                txt1 = "writer raised %s" % type(err).__name__
+            if txt1 != txt0:
+                part.violation({
+                    "kind": "written_code_changed_by_refused_transformation",
+                    "mechanism": None,
+                    "what": "%s refused at %s but the written code differs"
+                            % (desc, site),
+                    "workload": "generic-systematic", "source": text,
+                    "transformation": a.tname,
+                    "dedupe": (a.tname, "text")})
+
+
 def generic_batch(arg):
     part = Part()
     rnd = random.Random(arg["seed"])
@@ -256,6 +357,10 @@ def generic_batch(arg):
             continue
         sites |= attempt_all(lambda: psy.read(text), classes, part, rnd,
                              arg["attempts"], True, "generic")
+        try:
+            systematic(text, part, sites)
+        except Exception as err:
+            part.count("systematic_harness_error:" + type(err).__name__)
         part.case(key=text, nontrivial=True,
                   sample=text[:600] if n == 0 else None)
     part.d["sites"] = sorted(sites)
@@ -365,7 +470,7 @@ def main(ctx):
                 "distinct by source text / (api, file, dm)")
     nb = 16 if ctx.quick else 120
     jobs = [{"seed": ctx.rng("g", i).random(), "count": 2 if ctx.quick else 8,
-             "attempts": 110 if ctx.quick else 600} for i in range(nb)]
+             "attempts": 80 if ctx.quick else 600} for i in range(nb)]
     sites = set()
     ncls = 0
     for res in ctx.pmap("vf.checks.c26", "generic_batch", jobs, timeout=3400):
